@@ -384,7 +384,38 @@ def _override_cases(tier):
                                "bodies": [{"media": declared, "encoded_as": target, "kind": bk, "instances": insts}], "key": f"body-override/{bk}/{target}"}}
 
 
+SEC_FORMS = {
+    # name: (root-level security, operation-level security, the operation has a security requirement)
+    "none": (None, None, False),
+    "operation": (None, [{"bearer": []}], True),
+    "root-inherited": ([{"bearer": []}], None, True),
+    "root-cleared-by-operation": ([{"bearer": []}], [], False),
+    "root-replaced-by-operation": ([{"bearer": []}], [{"key": []}], True),
+    "operation-alternatives": (None, [{"bearer": []}, {"key": []}], True),
+    "operation-api-key": (None, [{"key": []}], True),
+    "operation-basic": (None, [{"basic": []}], True),
+}
+
+
+def _security_cases():
+    schemes = {"bearer": {"type": "http", "scheme": "bearer"}, "key": {"type": "apiKey", "in": "header", "name": "X-Key"}, "basic": {"type": "http", "scheme": "basic"}}
+    for form, (root, opsec, required) in SEC_FORMS.items():
+        for with_param in (False, True):
+            comps = {}
+            params = [_param("q", "query", "str", False, comps)] if with_param else []
+            p_, item = _op(method="get", path="/s", params=params)
+            if opsec is not None:
+                item["get"]["security"] = copy.deepcopy(opsec)
+            doc = gen.base_doc(None, paths={p_: item}, components={"securitySchemes": copy.deepcopy(schemes)})
+            if root is not None:
+                doc["security"] = copy.deepcopy(root)
+            spec = [{"name": "q", "in": "query", "kind": "str", "required": False, "samples": ["sv1", "s-v.2"]}] if with_param else []
+            yield {"labels": [f"security={form}"] + (["with-parameter"] if with_param else []),
+                   "payload": {"doc": doc, "options": {}, "method": "get", "path": "/s", "params": spec, "security": required, "key": f"security/{form}"}}
+
+
 def cases(tier):
+    yield from _security_cases()
     yield from _pathitem_cases(tier)
     yield from _override_cases(tier)
     yield from _matrix_cases()
